@@ -249,7 +249,9 @@ def run(chk):
     nv = vander.van_rule(chk, db, "C01-D5.vandermonde")
     nw = vander.walk_rule(chk, db, "C01-D5.vandermonde")
     chk.floor("C01-D5.vandermonde", nv, 30, "paired appends in van_matrix")
-    chk.floor("C01-D5.vandermonde", nw, 5, "ancestor walks in van_matrix")
+    ncell = vander.cell_rule(chk, db, "C01-D5.vandermonde")
+    chk.floor("C01-D5.vandermonde", nw + vander.cell_rule.other_shape, 5, "ancestor walks in van_matrix (while-loop walks compared with getParent step by step, other shapes executed row by row)")
+    chk.floor("C01-D5.vandermonde", ncell, 1, "ancestor walk of the piecewise-constant rule executed row by row")
     chk.rule("C01-D6.insert", "single-point expansion keeps coefficients aligned with points: the strip insertion kernel and the order of insertion / index shift / update (obligations of C09-D3)")
     from rules import c09
     sub9 = Check("C09", chk.tier, chk.seed)
